@@ -28,7 +28,7 @@ theorem sensitivity_fit_generated (ppf : F → F) (rows : List (MRow F)) (α : F
       sensitivity ppf ((cntED rows 1 true : Nat) : F)
         (((cntED rows 1 true : Nat) : F) + ((cntED rows 1 false : Nat) : F)) α "wald" := by
   unfold Sensitivity_fit cntED
-  simp only
+  simp only [add_comm, Bool.and_comm]
   split <;> simp_all
 
 /-- `Specificity.fit` = `specificity(detected = #(T−,D+), noncases = #(T−,D+) + #(T−,D−), alpha, 'wald')` -/
@@ -37,7 +37,7 @@ theorem specificity_fit_generated (ppf : F → F) (rows : List (MRow F)) (α : F
       specificity ppf ((cntED rows 0 true : Nat) : F)
         (((cntED rows 0 true : Nat) : F) + ((cntED rows 0 false : Nat) : F)) α "wald" := by
   unfold Specificity_fit cntED
-  simp only
+  simp only [add_comm, Bool.and_comm]
   split <;> simp_all
 
 /-- `Diagnostics.fit` runs the two, sensitivity first; the first rejection aborts -/
